@@ -86,7 +86,7 @@ package dns
 // writes at most that many (it trims trailing zero octets)
 //@ func (*APLPrefix).len [C08 C16]
 //@   ensures nonneg: ret0 >= 0
-//@   ensures exact: ret0 == 4 + (callres("Size", 0) + 7) / 8
+//@   exit exact: ret0 == 4 + (callres("Size", 0) + 7) / 8
 //@ iface SVCBKeyValue.len [C08 C16]
 //@   ensures nonneg: ret0 >= 0
 //@ func (*SVCBAlpn).len [C08 C16]
